@@ -49,6 +49,8 @@ extern int vg_r, vg_w, vg_b, vh_r, vh_w, vk_r, vk_w, vg_i, vg_j;
 /* ------------------------------------------------------------------ mzd_col_swap_in_rows / mzd_col_swap
  * bit-level: in rows [start_row, stop_row) cell cola and cell colb are exchanged. */
 #define VP_GCOL (64 * vg_w + vg_b)
+/* ghost bit (vg_r, vg_w, vg_b) is a cell of A in a row >= r0 */
+#define VP_GCELL(A, r0) (VP_ROWOK(A, vg_r) && vg_r >= (r0) && vg_w >= 0 && VP_GCOL < (A)->ncols)
 #define VP_OLDBIT_AT(M, r, c) ((int)((VP_W0(M, r, (c) / 64) >> ((c) % 64)) & 1))
 #define REQ_mzd_col_swap_in_rows(M, cola, colb, r0, r1)                                            \
   (VP_HDR(M) && VP_NONEMPTY(M) && VP_COLOK(M, cola) && VP_COLOK(M, colb) && 0 <= (r0) && (r0) <= (r1) && (r1) <= (M)->nrows &&   \
